@@ -51,3 +51,32 @@ fn verif_replay_c15_boundary() {
         assert_eq!(d.is_ok(), n <= m, "decode of {n} bytes with max {m}");
     }
 }
+
+fn verif_poll_once<F: std::future::Future>(f: F) -> Option<F::Output> {
+    use std::task::{Context, Poll, RawWaker, RawWakerVTable, Waker};
+    fn noop(_: *const ()) {}
+    fn clone(_: *const ()) -> RawWaker {
+        RawWaker::new(std::ptr::null(), &VTABLE)
+    }
+    static VTABLE: RawWakerVTable = RawWakerVTable::new(clone, noop, noop, noop);
+    let waker = unsafe { Waker::from_raw(RawWaker::new(std::ptr::null(), &VTABLE)) };
+    let mut cx = Context::from_waker(&waker);
+    let mut f = Box::pin(f);
+    match f.as_mut().poll(&mut cx) {
+        Poll::Ready(v) => Some(v),
+        Poll::Pending => None,
+    }
+}
+
+/// C07/C06: the preamble reader on the 8 bytes of a solver counterexample (VERIF_CEX_BYTES = "61 6e .."):
+/// accepted iff they are exactly "anemo" 00 01 00.
+#[test]
+fn verif_replay_c07_preamble_bytes() {
+    let s = std::env::var("VERIF_CEX_BYTES").expect("VERIF_CEX_BYTES");
+    let bytes: Vec<u8> = s.split_whitespace().map(|x| u8::from_str_radix(x, 16).unwrap()).collect();
+    assert_eq!(bytes.len(), 8);
+    let mut rd: &[u8] = &bytes;
+    let r = verif_poll_once(read_version_frame(&mut rd)).expect("in-memory read completes");
+    let spec = bytes == [0x61, 0x6e, 0x65, 0x6d, 0x6f, 0x00, 0x01, 0x00];
+    assert_eq!(r.is_ok(), spec, "preamble {s}: reader says {:?}, the wire format says {}", r.as_ref().map(|_| "accept").map_err(|e| e.to_string()), if spec { "accept" } else { "reject" });
+}
